@@ -13,6 +13,8 @@ import os
 import re
 import subprocess
 import sys
+import shutil
+import tempfile
 import time
 
 from dst.core import env, findings, prng, shrink
@@ -43,7 +45,27 @@ def _mark_inflight(index: int, k: int) -> None:
 
 
 def load_check(prop: str):
-    return importlib.import_module(f"dst.checks.{prop.lower()}")
+    mod = importlib.import_module(f"dst.checks.{prop.lower()}")
+    if not getattr(mod, "_fresh_state_wrapped", False):
+        inner = mod.execute
+
+        def execute(sc):
+            """One run = one process lifetime: whatever an earlier run of this worker left behind in module-level or
+            class-level state of the library is put back before the run (a run must not depend on which runs its worker
+            happened to execute before); a run that leaves such state changed is counted."""
+            from dst.world import pristine
+
+            pristine.ensure()
+            if pristine.changed():
+                pristine.reset()
+            res = inner(sc)
+            if pristine.changed():
+                res.setdefault("probes", {})["runs_that_left_process_wide_state_changed"] = 1
+            return res
+
+        mod.execute = execute
+        mod._fresh_state_wrapped = True
+    return mod
 
 
 # ---------------------------------------------------------------------------------------------
@@ -275,6 +297,11 @@ def minimise_violation(mod, v, budget_s=30.0):
     return shrink.minimise(v["scenario"], cands, fails, budget_s=budget_s)
 
 
+def interp_flags():
+    """Interpreter configuration of this pass (part of a scenario's world: see run_property, 'optimised interpreter')."""
+    return ["-O"] if sys.flags.optimize else []
+
+
 def write_replay(prop, seed, tier, v, minimised, used) -> str:
     d = os.path.join(OUT, "replays", prop)
     os.makedirs(d, exist_ok=True)
@@ -285,10 +312,12 @@ def write_replay(prop, seed, tier, v, minimised, used) -> str:
             trace = list(tr(minimised))[:400]  # readable event trace of the minimised scenario
     except Exception:  # noqa: BLE001 - the trace is a convenience, never a reason to lose the replay
         trace = None
-    path = os.path.join(d, f"{_slug(v['sig'])}-{seed}-{v['index']}.json")
+    flags = interp_flags()
+    path = os.path.join(d, f"{_slug(v['sig'])}-{seed}-{v['index']}{'-O' if flags else ''}.json")
     with open(path, "w") as f:
         json.dump(
             {
+                "interpreter_flags": flags,
                 "property": prop,
                 "signature": v["sig"],
                 "detail": v.get("detail", ""),
@@ -313,10 +342,15 @@ def replay_file(path: str) -> int:
     env.setup()
     with open(path) as f:
         data = json.load(f)
+    want = data.get("interpreter_flags") or []
+    if want != interp_flags():
+        # the violation was found under another interpreter configuration: replay it under that one
+        cmd = [sys.executable, *want, "-B", os.path.join(ROOT, "dst", "main.py"), "replay", path]
+        return subprocess.run(cmd, env=dict(os.environ, PYTHONOPTIMIZE="" if not want else "1")).returncode
     mod = load_check(data["property"])
     if data["signature"].endswith("wall-clock-hang") and not os.environ.get("VERIF_NO_HANG_GUARD"):
         limit = int(os.environ.get("VERIF_REPLAY_TIMEOUT", "60"))
-        cmd = [sys.executable, "-B", os.path.join(ROOT, "dst", "main.py"), "replay", path]
+        cmd = [sys.executable, *interp_flags(), "-B", os.path.join(ROOT, "dst", "main.py"), "replay", path]
         try:
             p = subprocess.run(cmd, capture_output=True, text=True, timeout=limit, env=dict(os.environ, VERIF_NO_HANG_GUARD="1"))
             print(f"REPLAY property={data['property']} signature={data['signature']!r} reproduced=no (finished in time) deterministic=yes")
@@ -343,7 +377,7 @@ def replay_file(path: str) -> int:
 
 def replay_in_fresh_process(path: str):
     """(reproduced?, deterministic?) judged by a fresh interpreter."""
-    cmd = [sys.executable, "-B", os.path.join(ROOT, "dst", "main.py"), "replay", path]
+    cmd = [sys.executable, *interp_flags(), "-B", os.path.join(ROOT, "dst", "main.py"), "replay", path]
     envv = dict(os.environ)
     envv["PYTHONHASHSEED"] = "1"  # a different hash seed than the batch: replay must not depend on it
     try:
@@ -391,7 +425,7 @@ def run_property(prop: str, tier: str, runs_override=None, workers=None, budget_
 
     merged, info = batch(prop, tier, seed, runs, chunk, workers, budget)
     supplements = []
-    for name, fn in getattr(mod, "supplements", lambda t: [])(tier):
+    for name, fn in getattr(mod, "supplements", lambda t: [])(tier) if not sys.flags.optimize else ():
         s0 = time.monotonic()
         sres = fn()
         sres["name"] = name
@@ -438,6 +472,35 @@ def run_property(prop: str, tier: str, runs_override=None, workers=None, budget_
         seen = sum(1 for v in merged["viol"].values() if v.get("known") is k)
         known_lines.append(f"KNOWN-FINDING: property={prop} {k['what']} [signature={k.get('signature') or k.get('signatures')}; committed replay {status}; met by {seen} signature(s) this run]")
 
+    # -- optimised interpreter: the same check, fewer runs, under `python -O` (asserts and `if __debug__` compiled away).
+    # What a library does must not depend on that switch; a side effect or a guard written as an assert is a classic slip.
+    opt_pass = None
+    if not sys.flags.optimize and not os.environ.get("VERIF_NO_OPT_PASS"):
+        n_opt = max(chunk, runs // 8)
+        b_opt = max(10.0, (budget or 60.0) / 6)
+        tmp_ev = tempfile.mkdtemp(prefix="verif-ev-O-")
+        cmd = [sys.executable, "-O", "-B", os.path.join(ROOT, "dst", "main.py"), prop, "--tier", tier, "--runs", str(n_opt), "--budget", str(b_opt), "--workers", str(workers)]
+        t_o = time.monotonic()
+        try:
+            p = subprocess.run(cmd, capture_output=True, text=True, timeout=b_opt * 4 + 600, env=dict(os.environ, VERIF_SEED=str(seed + 7919), VERIF_EVIDENCE_DIR=tmp_ev, PYTHONOPTIMIZE="1"))
+            o_rc, o_out = p.returncode, p.stdout
+            if o_rc not in (0, 1):
+                o_out += p.stderr[-800:]
+        except subprocess.TimeoutExpired:
+            o_rc, o_out = 2, "timeout"
+        shutil.rmtree(tmp_ev, ignore_errors=True)
+        o_lines = o_out.splitlines()
+        o_summary = next((l for l in o_lines if l.startswith("SUMMARY")), "")
+        opt_pass = {"flags": ["-O"], "exit": o_rc, "runs_requested": n_opt, "seed": seed + 7919, "wall_s": round(time.monotonic() - t_o, 2), "summary": o_summary[:300], "violations": sum(1 for l in o_lines if l.startswith("VIOLATION"))}
+        if o_rc == 1:
+            for i, l in enumerate(o_lines):
+                if l.startswith("VIOLATION"):
+                    sig_line = o_lines[i - 1] if i and o_lines[i - 1].lstrip().startswith("signature:") else "  signature: ?"
+                    reported.append((sig_line.split("signature:", 1)[1].split(" :: ")[0].strip() + " [python -O]", l.split("replay=", 1)[1].strip(), sig_line.split(" :: ", 1)[1] if " :: " in sig_line else ""))
+        elif o_rc != 0:
+            print(f"HARNESS-ERROR property={prop} the pass under python -O ended with exit {o_rc}: {o_out[-400:]}")
+            harness_problem = True
+
     wall = time.monotonic() - t_start
     rate = merged["evals"] / info["wall"] if info["wall"] > 0 else 0.0
     coverage = {
@@ -462,6 +525,7 @@ def run_property(prop: str, tier: str, runs_override=None, workers=None, budget_
         "components_real": mod.REAL,
         "components_stub": mod.STUB,
         "supplements": supplements,
+        "optimised_interpreter_pass": opt_pass,
         "violating_evaluations": merged["viol_count"],
         "violation_signatures": sorted(merged["viol"]),
         "known_findings_reported": known_lines,
